@@ -146,6 +146,11 @@ def scenarios(tier: str):
                     tags=('quick', 'faults-only', 'nofsync'))
     big2.fault_kinds = big.fault_kinds
     out.append(big2)
+    # read-only operations under a single fault (only for the fault check): a failing open/read of a stored object must raise,
+    # never be answered as "no such object" / None / a shorter listing
+    for qname, q in (('has', ('q', 'has')), ('bulkall', ('q', 'bulkall')), ('bulk', ('q', 'bulk')), ('meta', ('q', 'meta')),
+                     ('get-loose', ('q', 'get', 1)), ('get-packed', ('q', 'get', 3))):
+        out.append(Scenario(f'read-{qname}@mixed', PRE['mixed'], q, universe=universe5(), tags=('quick', 'faults-only')))
     out.append(Scenario('clean@uncommitted-rows', PRE['uncommitted-rows'], ('clean', False), universe=universe5(), tags=('quick', 'uncommitted')))
     out.append(Scenario('pack@uncommitted-rows', PRE['uncommitted-rows'], ('pack', 'NO', True, True), universe=universe5(), tags=('uncommitted',)))
     out.append(Scenario('add-damaged-truncated-copy@mixed', PRE['mixed'] + [('damage', 2)], ('adds', 2), universe=universe5(), tags=('quick', 'damaged')))
